@@ -13,6 +13,9 @@ The line layer and the level-number layer are proved here:
 * `replacing_once` — with a REPLACING list every source line is emitted exactly once, with all
   replacements applied in order (`D18_counterexample` for the pinned commit).
 * `leading_space_irrelevant` — white space before an entry does not matter to the sentence scanner.
+* `untilPeriod_body` — the sentence scanner ends an entry at ITS period: for every entry text made of ordinary characters,
+  periods not followed by white space and closed quoted literals with ANY body (periods, blanks, line breaks), the clauses
+  returned are the whole text and the scan resumes after the period's white space (D46 as repaired).
 * `renumber_invariant` — renumbering the levels by any order-preserving map that keeps 66/77/88
   and 01 fixed yields the same forest (shape and nesting).
 
@@ -147,6 +150,93 @@ theorem D18_counterexample :
     (pairs reps ls).map (·.2) = ["05 X-Y PIC X.\n".toList] := by decide
 
 /-! ## sentences -/
+
+/-- the text of an entry: ordinary characters, periods that are not followed by white space, and closed quoted literals
+whose body is ANY text without the quote character (periods, blanks, line breaks included) -/
+inductive Body : Line → Prop
+  | nil : Body []
+  | ch (c : Char) (l : Line) : isQuote c = false → c ≠ '.' → Body l → Body (c :: l)
+  | dotEnd : Body ['.']
+  | dot (c : Char) (l : Line) : isWs c = false → Body (c :: l) → Body ('.' :: c :: l)
+  | lit (q : Char) (b l : Line) : isQuote q = true → q ∉ b → Body l → Body (q :: (b ++ q :: l))
+
+theorem closeQuote_lit (q : Char) : ∀ (b rest : Line), q ∉ b → closeQuote q (b ++ q :: rest) = some (b, rest)
+  | [], rest, _ => by simp [closeQuote]
+  | c :: b, rest, h => by
+    have hc : (c == q) = false := by
+      simp only [List.mem_cons, not_or] at h
+      simpa using fun e => h.1 e.symm
+    have ih := closeQuote_lit q b rest (fun hm => h (List.mem_cons_of_mem _ hm))
+    simp [closeQuote, hc, ih]
+
+theorem isQuote_ne_dot (q : Char) (h : isQuote q = true) : q ≠ '.' := by
+  intro e; subst e; simp [isQuote] at h
+
+theorem untilPeriodGo_plain (fuel : Nat) (c : Char) (rest : Line) (h : c ≠ '.') (hq : isQuote c = false) :
+    untilPeriodGo (fuel + 1) (c :: rest) = (untilPeriodGo fuel rest).map fun p => (c :: p.1, p.2) := by
+  have hb : (c == '.') = false := by simpa using h
+  simp [untilPeriodGo, hb, hq]
+
+theorem untilPeriodGo_lit (fuel : Nat) (q : Char) (rest lit after : Line) (hq : isQuote q = true)
+    (hc : closeQuote q rest = some (lit, after)) :
+    untilPeriodGo (fuel + 1) (q :: rest) = (untilPeriodGo fuel after).map fun p => (q :: lit ++ q :: p.1, p.2) := by
+  have hb : (q == '.') = false := by simpa using isQuote_ne_dot q hq
+  simp [untilPeriodGo, hb, hq, hc]
+
+/-- **The sentence scanner ends an entry at ITS period** (D46 as repaired, for all entries): whatever closed literals the entry
+contains -- with periods, blanks and line breaks inside them -- the clauses returned are the whole entry text and the scan resumes
+right after the period's white space. -/
+theorem untilPeriodGo_body (b : Line) (hb : Body b) (w : Char) (hw : isWs w = true) (rest : Line) :
+    ∀ fuel, (b ++ '.' :: w :: rest).length < fuel → untilPeriodGo fuel (b ++ '.' :: w :: rest) = some (b, rest) := by
+  induction hb with
+  | nil =>
+    intro fuel hf
+    cases fuel with
+    | zero => simp at hf
+    | succ f => simp [untilPeriodGo, hw]
+  | ch c l hq hd _ ih =>
+    intro fuel hf
+    cases fuel with
+    | zero => simp at hf
+    | succ f =>
+      have := ih f (by simp at hf ⊢; omega)
+      simp only [List.cons_append]
+      rw [untilPeriodGo_plain _ _ _ hd hq]
+      simp [this]
+  | dotEnd =>
+    intro fuel hf
+    cases fuel with
+    | zero => simp at hf
+    | succ f =>
+      cases f with
+      | zero => simp at hf
+      | succ g =>
+        have h1 : isWs '.' = false := by decide
+        simp [untilPeriodGo, h1, hw]
+  | dot c l hc _ ih =>
+    intro fuel hf
+    cases fuel with
+    | zero => simp at hf
+    | succ f =>
+      have := ih f (by simp at hf ⊢; omega)
+      simp only [List.cons_append] at this ⊢
+      simp [untilPeriodGo, hc, this]
+  | lit q b l hq hnb _ ih =>
+    intro fuel hf
+    cases fuel with
+    | zero => simp at hf
+    | succ f =>
+      have hlen : (l ++ '.' :: w :: rest).length < f := by
+        simp only [List.cons_append, List.append_assoc, List.length_cons, List.length_append] at hf ⊢; omega
+      have := ih f hlen
+      have hcq := closeQuote_lit q b (l ++ '.' :: w :: rest) hnb
+      simp only [List.cons_append, List.append_assoc]
+      rw [untilPeriodGo_lit _ _ _ _ _ hq hcq]
+      simp [this]
+
+theorem untilPeriod_body (b : Line) (hb : Body b) (w : Char) (hw : isWs w = true) (rest : Line) :
+    untilPeriod (b ++ '.' :: w :: rest) = some (b, rest) :=
+  untilPeriodGo_body b hb w hw rest _ (Nat.lt_succ_self _)
 
 /-- (D46 as repaired) a period followed by a blank inside a closed literal does not end the entry -/
 example : sentences "05 X PIC X(12) VALUE 'A. B' OCCURS 4 TIMES.\n05 Y PIC X.\n".toList =
